@@ -13,7 +13,7 @@ use serde::{Deserialize, Serialize};
 pub fn def() -> PropDef {
     PropDef {
         id: "C04",
-        rule: "generated: even shard size 2..330 (all tails, plus multi-block sizes) x small/pow2-edge configuration x codec family x engine x data x received set; half of the cases run on a reused object whose retained working memory was poisoned (padding lanes then hold noise). oracle: every output has exactly the shard size; for all slots (size<=66) or sampled slots, coding the 2-byte shards made of that slot alone (documented byte placement) gives exactly that slot of the big-shard outputs, for encode and decode. non-trivial: size%64 != 0 (tail) and at least one original restored; distinct by full case",
+        rule: "generated: even shard size 2..330 (all tails, plus multi-block sizes up to 80 KiB) x small/pow2-edge configuration x codec family x engine x data x received set; half of the cases run on a reused object whose retained working memory was poisoned (padding lanes then hold noise). oracle: every output has exactly the shard size; for all slots (size<=66) or sampled slots, coding the 2-byte shards made of that slot alone (documented byte placement) gives exactly that slot of the big-shard outputs, for encode and decode. non-trivial: size%64 != 0 (tail) and at least one original restored; distinct by full case",
         assumptions: &["poison only overwrites bytes that survive a resize (real stale bytes)"],
         parts,
     }
@@ -43,9 +43,15 @@ fn strategy(_t: Tier) -> BoxedStrategy<SlotCase> {
                 6 => (1usize..=165).prop_map(|h| h * 2),
                 2 => (0usize..gen::SIZES.len()).prop_map(|i| gen::SIZES[i]),
                 1 => (166usize..=520).prop_map(|h| h * 2),
+                // long shards: tens of KiB, every residue mod 64 (blocked kernels, size thresholds)
+                1 => (521usize..=40000).prop_map(|h| h * 2),
             ];
             (counts, size, gen::engine_for(kind), gen::data_spec(), gen::recv_spec(), any::<bool>()).prop_map(
-                move |((k, r), b, eng, data, recv, poison)| SlotCase { kind, eng, cfg: Cfg { k, r, b }, data, recv, poison },
+                move |((k, r), b, eng, data, recv, poison)| {
+                    // long shards only with few of them
+                    let b = if b > 1040 && k + r > 24 { 2 + b % 1040 / 2 * 2 } else { b };
+                    SlotCase { kind, eng, cfg: Cfg { k, r, b }, data, recv, poison }
+                },
             )
         })
         .boxed()
